@@ -28,15 +28,17 @@ import numpy as np
 from scipy import sparse
 
 from vlib import graphs
-from vlib.cases import Case, Sub, evaluate as _evaluate
+from vlib.cases import Case, Sub
 from vlib.core import enc_list, enc_rat, enc_ratlist, enc_bool, VERIF, ToolFailure
 
 TOL64 = Fraction(1, 10 ** 9)     # float64 paths (DESIGN section 8)
 EPS32 = Fraction(2, 10 ** 5)     # float32 kernels: accumulated rounding of the gains (DESIGN section 8)
 N_RANDS = 400                    # default number of rand() values handed to the model (see _n_rands)
 CALL_TIMEOUT = 15                # seconds allowed to one call of the implementation (inputs have <= 40 nodes)
-CALL_TIMEOUT_AFTER_HANG = 3      # once a call has hung, the following ones get this much
-MAX_HANGS = 12                   # after that many hung / crashed calls the remaining cases are not run
+CALL_TIMEOUT_AFTER_HANG = 5      # once a call has hung (twice: see run_impls), the following ones get this much
+RERUN_FACTOR, RERUN_MIN = 4, 20  # a call that outlives its alarm is run again alone with this much more time
+MAX_SLOW = 4                     # calls that return on the second attempt tolerated before the run is a tool failure
+MAX_HANGS = 6                    # after that many hung / crashed calls the remaining cases are not run
 
 RULE = ('get_modularity: all digraphs n<=3 (loops, sampled weights) x all labelings (one negative label sampled) x '
         '{degree, uniform, custom} x resolutions, rectangular matrices with labels_col, structured random graphs '
@@ -60,6 +62,7 @@ ASSUMPTIONS = ['scipy sparse products / `+=` / bmat / np.unique are the substrat
 KINDS = ['dugue', 'newman', 'potts']
 _libc = ctypes.CDLL('libc.so.6')
 _PRISTINE = {}
+LOST = {}       # what the run did not look at / had to repeat (made visible in the evidence by `run`)
 
 
 # ------------------------------------------------------------------------------------------------
@@ -152,6 +155,18 @@ def _plain_rand(ctx):
 # the implementation side: every call runs in a forked worker under an alarm, so that a kernel that no longer
 # terminates (or crashes) is an answer ('hang' / 'crash') and not a stuck check
 # ------------------------------------------------------------------------------------------------
+class _Refused(Exception):
+    """the library raised ValueError (kept apart from ValueErrors of the harness's own code)"""
+
+
+def _lib(f, *args, **kw):
+    try:
+        with np.errstate(all='ignore'):
+            return f(*args, **kw)
+    except ValueError:
+        raise _Refused()
+
+
 def _impl_modularity(desc):
     from sknetwork.clustering import get_modularity
     a = _mk_csr(desc)
@@ -161,8 +176,8 @@ def _impl_modularity(desc):
     w = desc['weights']
     w_arg = np.array(w, dtype=float) if isinstance(w, list) else w
     res = desc['resolution']
-    r = get_modularity(inp, labels, labels_col, weights=w_arg, resolution=res, return_all=True)
-    m = get_modularity(inp, labels, labels_col, weights=w_arg, resolution=res)
+    r = _lib(get_modularity, inp, labels, labels_col, weights=w_arg, resolution=res, return_all=True)
+    m = _lib(get_modularity, inp, labels, labels_col, weights=w_arg, resolution=res)
     vals = [float(x) for x in r]
     if not all(math.isfinite(v) for v in vals):
         return 'err nonfinite'
@@ -178,25 +193,25 @@ def _kernel_arrays(desc):
         indptr=np.array(desc['indptr'], dtype=it), data=_f32(desc['data']).copy(),
         ow=_f32(desc['out_weights']).copy(), iw=_f32(desc['in_weights']).copy(),
         oc=_f32(desc['out_cluster_weights']).copy(), ic=_f32(desc['in_cluster_weights']).copy(),
-        sl=_f32(desc['self_loops']).copy())
+        sl=_f32(desc['self_loops']).copy(),
+        cw=(_f32(desc['cluster_weights']).copy() if 'cluster_weights' in desc
+            else np.zeros(len(desc['out_cluster_weights']), dtype=np.float32)))
 
 
 def _impl_core(desc):
     from sknetwork.clustering.louvain_core import optimize_core
     ar = _kernel_arrays(desc)
-    k = len(desc['out_cluster_weights'])
     lab, inc = optimize_core(ar['labels'], ar['indices'], ar['indptr'], ar['data'], ar['ow'], ar['iw'], ar['oc'],
-                             ar['ic'], np.zeros(k, dtype=np.float32), ar['sl'], desc['resolution'], desc['tol'])
+                             ar['ic'], ar['cw'], ar['sl'], desc['resolution'], desc['tol'])
     return 'ok %s %d' % (enc_list(np.asarray(lab)), _bits([inc])[0])
 
 
 def _impl_refine(desc):
     from sknetwork.clustering.leiden_core import optimize_refine_core
     ar = _kernel_arrays(desc)
-    k = len(desc['out_cluster_weights'])
     refined = np.array(desc['refined'], dtype=ar['labels'].dtype)
     args = (ar['labels'], refined, ar['indices'], ar['indptr'], ar['data'], ar['ow'], ar['iw'], ar['oc'], ar['ic'],
-            np.zeros(k, dtype=np.float32), ar['sl'], desc['resolution'])
+            ar['cw'], ar['sl'], desc['resolution'])
     try:
         out = optimize_refine_core(*args, desc['seed'])      # the kernel seeds libc's generator itself
     except TypeError:
@@ -205,20 +220,44 @@ def _impl_refine(desc):
     return 'ok ' + enc_list(np.asarray(out))
 
 
+MAX_TAPS = 3     # kernel calls recorded per kernel and tapped fit (the first ones); the zero-tolerance stream: all
+
+
+def _container(a, name):
+    """the adjacency in the container the description names (the values and their dtype are those of `a`)"""
+    if name in (None, 'csr'):
+        return a
+    if name == 'dense':
+        return a.toarray()
+    return getattr(a, 'to' + name)()
+
+
+def _tap_arrays(n, labels, indices, indptr, data, ow, iw, oc, ic, cw, sl):
+    """copy of what a kernel is handed (the kernels work in place), in the form of a kernel description"""
+    return {'n': int(n), 'labels': [int(x) for x in labels], 'indices': [int(x) for x in indices],
+            'indptr': [int(x) for x in indptr], 'data': _bits(data), 'out_weights': _bits(ow), 'in_weights': _bits(iw),
+            'out_cluster_weights': _bits(oc), 'in_cluster_weights': _bits(ic), 'cluster_weights': _bits(cw),
+            'self_loops': _bits(sl), 'itype': str(np.asarray(indices).dtype)}
+
+
 def _impl_fit(desc):
     from sknetwork.clustering import Louvain, Leiden
+    import sknetwork.clustering.louvain as lvm
+    import sknetwork.clustering.leiden as lm
+    import sknetwork.clustering.louvain_core as lvc
+    import sknetwork.clustering.leiden_core as lc
     a = _mk_csr(desc)
     fb = bool(desc.get('force_bipartite'))
     bip = fb or a.shape[0] != a.shape[1]
     cls = Louvain if desc['f'] == 'Louvain' else Leiden
     base = int(desc.get('seed', 1))
     shuffle = bool(desc.get('shuffle_nodes'))
-    est = cls(resolution=desc['resolution'], modularity=desc['kind'], tol_optimization=desc['tol_optimization'],
-              tol_aggregation=desc['tol_aggregation'], n_aggregations=desc['n_aggregations'], shuffle_nodes=shuffle,
-              sort_clusters=bool(desc.get('sort_clusters')), return_probs=False, return_aggregate=False,
-              random_state=base)
-    seeds = []
-    seen = {}
+    est = _lib(cls, resolution=desc['resolution'], modularity=desc['kind'], tol_optimization=desc['tol_optimization'],
+               tol_aggregation=desc['tol_aggregation'], n_aggregations=desc['n_aggregations'], shuffle_nodes=shuffle,
+               sort_clusters=bool(desc.get('sort_clusters')), return_probs=bool(desc.get('return_probs')),
+               return_aggregate=bool(desc.get('return_aggregate')), random_state=base)
+    seeds, taps, seen = [], [], {}
+    tap = int(desc.get('tap') or 0)      # how many calls of each kernel are recorded
     # observe the permutation `_pre_processing` draws when shuffle_nodes is set (its fifth result)
     orig_pp = est._pre_processing
 
@@ -227,40 +266,67 @@ def _impl_fit(desc):
         seen['index'] = [int(x) for x in r[4]]
         return r
     est._pre_processing = pre_processing
-    patched = []
-    if desc['f'] == 'Leiden':
-        # observe, at the kernel boundary, which stream of rand() each refinement draws from: the seed Leiden.fit
-        # hands to the kernel, or (signature without a seed) a seed set here just before the call
-        import sknetwork.clustering.leiden as lm
-        import sknetwork.clustering.leiden_core as lc
-        orig = _PRISTINE.setdefault('refine', lc.optimize_refine_core)   # never wrap a wrapper
+    # observe, at the kernel boundary: which stream of rand() each refinement draws from (the seed Leiden.fit hands to
+    # the kernel, or - signature without a seed - a seed set here just before the call), and, for tapped fits, what
+    # the kernels are handed and what they return
+    orig_ref = _PRISTINE.setdefault('refine', lc.optimize_refine_core)   # never wrap a wrapper
+    orig_core = _PRISTINE.setdefault('core', lvc.optimize_core)
 
-        def recorder(*args, **kw):
-            sd = kw.get('seed', args[12] if len(args) > 12 else None)
-            if sd is not None and sd >= 0:
-                seeds.append(int(sd))
-            else:
-                sd = (base + 7919 * len(seeds)) % (2 ** 31 - 1)
-                seeds.append(sd)
-                _libc.srand(sd)
-            return orig(*args, **kw)
-        patched = [k for k, v in vars(lm).items() if v is orig]
-        for k in patched:
-            setattr(lm, k, recorder)
+    def refine_recorder(*args, **kw):
+        sd = kw.get('seed', args[12] if len(args) > 12 else None)
+        if sd is not None and sd >= 0:
+            seeds.append(int(sd))
+        else:
+            sd = (base + 7919 * len(seeds)) % (2 ** 31 - 1)
+            seeds.append(sd)
+            _libc.srand(sd)
+        rec = None
+        if not kw and len(args) >= 12 and sum(t['f'] == 'optimize_refine_core' for t in taps) < tap:
+            rec = _tap_arrays(len(args[0]), args[0], *args[2:11])
+            rec.update(f='optimize_refine_core', refined=[int(x) for x in args[1]], resolution=float(args[11]),
+                       seed=int(sd))
+        out = orig_ref(*args, **kw)
+        if rec is not None:
+            rec['impl'] = 'ok ' + enc_list(np.asarray(out))
+            taps.append(rec)
+        return out
+
+    def core_recorder(*args, **kw):
+        rec = None
+        if not kw and len(args) == 12 and sum(t['f'] == 'optimize_core' for t in taps) < tap:
+            rec = _tap_arrays(len(args[0]), *args[:10])
+            rec.update(f='optimize_core', resolution=float(args[10]), tol=float(args[11]))
+        out = orig_core(*args, **kw)
+        if rec is not None:
+            rec['impl'] = 'ok %s %d' % (enc_list(np.asarray(out[0])), _bits([out[1]])[0])
+            taps.append(rec)
+        return out
+    patched = []
+    for mod in (lvm, lm):
+        for k, v in list(vars(mod).items()):
+            if v is orig_ref:
+                patched.append((mod, k, orig_ref))
+                setattr(mod, k, refine_recorder)
+            elif v is orig_core:
+                patched.append((mod, k, orig_core))
+                setattr(mod, k, core_recorder)
     try:
         refit = desc.get('refit')
         if refit:
             # the estimator has a history: an earlier fit on the same or on another graph
             first = a if refit == 'same' else _mk_csr(refit)
-            est.fit(first, force_bipartite=fb if refit == 'same' else False)
+            _lib(est.fit, first, force_bipartite=fb if refit == 'same' else False)
             del seeds[:]
+            del taps[:]
             seen.clear()
-        est.fit(a, force_bipartite=fb)
+        _lib(est.fit, _container(a, desc.get('container')), force_bipartite=fb)
     finally:
-        for k in patched:
-            setattr(lm, k, orig)
+        for mod, k, v in patched:
+            setattr(mod, k, v)
     # the named observable: the 'Increase:' figures recorded in the estimator's `log` attribute
     incs = [float(x) for x in re.findall(r'Increase: (\S+)', est.log)]
+    if not all(math.isfinite(x) for x in incs):
+        return 'err nonfinite'
     if bip:
         labs = [int(x) for x in est.labels_row_] + [int(x) for x in est.labels_col_]
     else:
@@ -270,6 +336,8 @@ def _impl_fit(desc):
         ans += ' seeds=' + enc_list(seeds)
     if shuffle and 'index' in seen:
         ans += ' index=' + enc_list(seen['index'])
+    if taps:
+        ans += ' taps=' + json.dumps(taps, separators=(',', ':'))
     return ans
 
 
@@ -279,16 +347,54 @@ _IMPL = {'get_modularity': _impl_modularity, 'optimize_core': _impl_core, 'optim
 
 def _impl_of(desc):
     try:
-        with np.errstate(all='ignore'):
-            return _IMPL[desc['f']](desc)
-    except ValueError:
+        return _IMPL[desc['f']](desc)
+    except _Refused:
         return 'err ValueError'
-    except Exception as e:  # an unexpected exception class is an answer too (compared with the model's)
+    except Exception as e:  # any other exception class (of the library or of this harness) is reported as such
         return 'exc ' + type(e).__name__
 
 
+def _worker(descs, start, timeout, w):
+    code = 0
+    try:
+        signal.signal(signal.SIGALRM, signal.SIG_DFL)
+        out = os.fdopen(w, 'w')
+        for k in range(start, len(descs)):
+            signal.alarm(timeout)
+            ans = _impl_of(descs[k])
+            signal.alarm(0)
+            out.write(json.dumps([k, ans]) + '\n')
+            out.flush()
+        out.close()
+    except BaseException:
+        code = 3
+    finally:
+        os._exit(code)
+
+
+def _collect(descs, start, timeout):
+    """Run descs[start:] in one forked worker; returns (answers read, index of the last answer, wait status)."""
+    r, w = os.pipe()
+    pid = os.fork()
+    if pid == 0:
+        os.close(r)
+        _worker(descs, start, timeout, w)
+    os.close(w)
+    got, last = {}, start - 1
+    with os.fdopen(r) as inp:
+        for ln in inp:
+            k, ans = json.loads(ln)
+            got[k] = ans
+            last = k
+    _, status = os.waitpid(pid, 0)
+    return got, last, status
+
+
 def run_impls(descs, timeout=None):
-    """Implementation answer for every description, computed in forked workers (one alarm per call)."""
+    """Implementation answer for every description, computed in forked workers (one alarm per call).
+    A call that outlives its alarm is run again, alone, with RERUN_FACTOR times the alarm: when it then returns it was
+    the machine, not the code (counted `impl:slow`; beyond MAX_SLOW such calls the run is a tool failure, exit 2 —
+    scheduling never becomes an answer); only a call that outlives the second alarm too is the answer `hang`."""
     results = [None] * len(descs)
     start = 0
     timeout = timeout or CALL_TIMEOUT
@@ -298,39 +404,27 @@ def run_impls(descs, timeout=None):
             for k in range(start, len(descs)):
                 results[k] = 'not-run'
             break
-        r, w = os.pipe()
-        pid = os.fork()
-        if pid == 0:
-            code = 0
-            try:
-                os.close(r)
-                signal.signal(signal.SIGALRM, signal.SIG_DFL)
-                out = os.fdopen(w, 'w')
-                for k in range(start, len(descs)):
-                    signal.alarm(timeout)
-                    ans = _impl_of(descs[k])
-                    signal.alarm(0)
-                    out.write(json.dumps([k, ans]) + '\n')
-                    out.flush()
-                out.close()
-            except BaseException:
-                code = 3
-            finally:
-                os._exit(code)
-        os.close(w)
-        last = start - 1
-        with os.fdopen(r) as inp:
-            for ln in inp:
-                k, ans = json.loads(ln)
-                results[k] = ans
-                last = k
-        _, status = os.waitpid(pid, 0)
+        got, last, status = _collect(descs, start, timeout)
+        results[start:last + 1] = [got[k] for k in range(start, last + 1)]
         if last + 1 < len(descs):
+            k = last + 1
             sig = os.WTERMSIG(status) if os.WIFSIGNALED(status) else 0
-            results[last + 1] = 'hang' if sig == signal.SIGALRM else 'crash %d' % (sig or os.WEXITSTATUS(status))
-            start = last + 2
+            if sig == signal.SIGALRM:
+                again, last2, _ = _collect(descs[:k + 1], k, max(RERUN_FACTOR * timeout, RERUN_MIN))
+                if last2 == k:
+                    results[k] = again[k]
+                    LOST['impl:slow'] = LOST.get('impl:slow', 0) + 1
+                    if LOST['impl:slow'] > MAX_SLOW:
+                        raise ToolFailure('%d calls of the implementation outlived their alarm and returned when run '
+                                          'again: the machine is too loaded for this check' % LOST['impl:slow'])
+                    start = k + 1
+                    continue
+                results[k] = 'hang'
+                timeout = CALL_TIMEOUT_AFTER_HANG
+            else:
+                results[k] = 'crash %d' % (sig or os.WEXITSTATUS(status))
+            start = k + 1
             lost += 1
-            timeout = CALL_TIMEOUT_AFTER_HANG
         else:
             start = len(descs)
     return results
@@ -373,7 +467,8 @@ def _kernel_tokens(desc):
     return [str(desc['n']), enc_list(desc['indptr']), enc_list(desc['indices']), enc_list(desc['data']),
             enc_list(desc['labels'])], [enc_list(desc['out_weights']), enc_list(desc['in_weights']),
                                         enc_list(desc['out_cluster_weights']), enc_list(desc['in_cluster_weights']),
-                                        enc_list([0] * k), enc_list(desc['self_loops'])]
+                                        enc_list(desc.get('cluster_weights', [0] * k)),
+                                        enc_list(desc['self_loops'])]
 
 
 def case_core(desc, impl):
@@ -381,7 +476,7 @@ def case_core(desc, impl):
     run = 'c06.core %s %s %d %d' % (' '.join(head), ' '.join(tail), _bits([desc['resolution']])[0],
                                     _bits([desc['tol']])[0])
     moved = impl.startswith('ok') and impl.split(' ')[1] != enc_list(desc['labels'])
-    sig = {'entry': 'optimize_core', 'itype': desc.get('itype', 'int64')}
+    sig = {'entry': 'optimize_core', 'itype': desc.get('itype', 'int64'), 'arrays': desc.get('arrays', 'harness')}
     return Case(('core', run), sig, run, impl, None, moved, dict(desc), canon='kernel')
 
 
@@ -391,11 +486,43 @@ def case_refine(desc, impl):
     run = 'c06.refine %s %s %s %d %s' % (' '.join(head), enc_list(desc['refined']), ' '.join(tail),
                                          _bits([desc['resolution']])[0], enc_list(rands))
     moved = impl.startswith('ok') and impl.split(' ')[1] != enc_list(desc['refined'])
-    sig = {'entry': 'optimize_refine_core', 'itype': desc.get('itype', 'int32')}
+    sig = {'entry': 'optimize_refine_core', 'itype': desc.get('itype', 'int32'),
+           'arrays': desc.get('arrays', 'harness')}
     return Case(('refine', run), sig, run, impl, None, moved, dict(desc), canon='refine')
 
 
-BIG_N = 60      # above this many nodes the spec line uses the per-cluster form of the objective (no component test)
+BIG_N = 60      # above this many nodes the spec line uses the per-cluster form of the objective and a component test
+                # with a certificate (a forest and the root of every cluster: Lean checks both, sound for any forest)
+
+
+def _forest(a, fb, labs):
+    """BFS forest of the graph of the non-zero entries (either direction; the block form for a biadjacency matrix) and,
+    for every cluster label, the root its first member reaches"""
+    a = sparse.csr_matrix(a)
+    pat = sparse.csr_matrix((a != 0).astype(np.int8))
+    if fb or a.shape[0] != a.shape[1]:
+        pat = sparse.bmat([[None, pat], [pat.T, None]], format='csr')
+    pat = sparse.csr_matrix(pat + pat.T)
+    n = pat.shape[0]
+    parent, root = list(range(n)), [-1] * n
+    for s0 in range(n):
+        if root[s0] >= 0:
+            continue
+        root[s0] = s0
+        queue = [s0]
+        for u in queue:
+            for v in pat.indices[pat.indptr[u]:pat.indptr[u + 1]]:
+                v = int(v)
+                if root[v] < 0:
+                    root[v], parent[v] = s0, u
+                    queue.append(v)
+    croot = [0] * (max(labs) + 1 if labs else 0)
+    seen = set()
+    for u, l in enumerate(labs):
+        if l not in seen:
+            seen.add(l)
+            croot[l] = root[u]
+    return parent, croot
 
 
 def case_fit(desc, impl, plain_rand=True):
@@ -413,8 +540,11 @@ def case_fit(desc, impl, plain_rand=True):
     g = _enc_csr(a.shape, a.indptr, a.indices, a.data)
     res32 = Fraction(float(np.float32(res)))
     tol32 = Fraction(float(np.float32(tol_o)))
-    seeds, index = None, None
+    seeds, index, taps = None, None, []
     if impl.startswith('ok '):
+        if ' taps=' in impl:
+            impl, tj = impl.split(' taps=', 1)       # last field: JSON (its strings contain spaces)
+            taps = json.loads(tj)
         toks = impl.split(' ')
         for t in toks[3:]:
             if t.startswith('seeds='):
@@ -422,10 +552,12 @@ def case_fit(desc, impl, plain_rand=True):
             if t.startswith('index='):
                 index = [int(x) for x in t[6:].split(',')] if t[6:] != '-' else []
         impl = ' '.join(toks[:3])
-    ktok = kind if kind in KINDS else 'other'
+    ktok = kind.lower() if kind.lower() in KINDS else 'other'     # Louvain.__init__ lower-cases the name
     run = None
     note = None
-    if desc.get('exact') and not sort and impl != 'hang-skipped':
+    if shuffle and impl.startswith('ok ') and index is None:
+        note = 'shuffle:index-not-observed'
+    if desc.get('exact') and not sort:
         common = '%s %s %s %s %d %s %s' % (ktok, enc_rat(res32), enc_rat(tol32), enc_rat(Fraction(tol_a)), n_agg, g,
                                            enc_bool(fb))
         if algo == 'Louvain' and not shuffle:
@@ -442,24 +574,35 @@ def case_fit(desc, impl, plain_rand=True):
     spec = None
     moved = False
     extra = []
-    if impl.startswith('ok '):
+    if impl.startswith('ok ') and ktok != 'other':
         _, ltok, itok = impl.split(' ')
         cmd = 'c06.spec_fit_big' if n_nodes > BIG_N else 'c06.spec_fit'
-        spec = '%s %s %s %s %s %s %s %s' % (cmd, kind, enc_rat(res32), g, enc_bool(fb), ltok, itok, enc_rat(EPS32))
+        spec = '%s %s %s %s %s %s %s %s' % (cmd, ktok, enc_rat(res32), g, enc_bool(fb), ltok, itok, enc_rat(EPS32))
         labs = [int(x) for x in ltok.split(',')]
+        if n_nodes > BIG_N and len(labs) == n_nodes and min(labs) >= 0:
+            parent, croot = _forest(a, fb, labs)
+            spec += ' %s %s' % (enc_list(parent), enc_list(croot))
+        elif n_nodes > BIG_N:
+            spec += ' %s %s' % (enc_list(range(n_nodes)), enc_list(range(n_nodes)))
         moved = len(set(labs)) < len(labs)
-    sig = {'entry': algo + '.fit', 'kind': kind, 'bipartite': bool(bip)}
+    sig = {'entry': algo + '.fit', 'kind': ktok, 'bipartite': bool(bip)}
     if desc.get('refit'):
         sig['refit'] = True
     key = (algo, kind, res, tol_o, tol_a, n_agg, g, fb, seed if (algo == 'Leiden' or shuffle) else 0,
-           bool(desc.get('exact')), shuffle, sort, repr(desc.get('refit'))[:40], desc.get('dtype'))
-    if run is None and impl != 'hang-skipped':
+           bool(desc.get('exact')), shuffle, sort, repr(desc.get('refit'))[:40], desc.get('dtype'),
+           desc.get('container'), bool(desc.get('return_probs')), bool(desc.get('return_aggregate')))
+    # the kernel calls this fit made, as recorded at the kernel boundary: bit-exact against the Float32 models
+    for t in taps:
+        ans = t.pop('impl')
+        t['arrays'] = 'fit'
+        extra.append(case_core(t, ans) if t['f'] == 'optimize_core' else case_refine(t, ans))
+    if run is None:
         # no model fit to compare with: ask the model whether the input is accepted — compared both ways
         acc = 'c06.accepts %s %s %s' % (ktok, g, enc_bool(fb))
         verdict = 'accepted' if impl.startswith('ok ') else ('refused' if impl.startswith('err') else impl)
         if spec is None:
-            return [Case(key, sig, acc, verdict, None, moved, dict(desc))], note
-        extra.append(Case(key + ('accepts',), sig, acc, verdict, None, False, dict(desc)))
+            return [Case(key, sig, acc, verdict, None, moved, dict(desc))] + extra, note
+        extra.append(Case(key + ('accepts',), sig, acc, verdict, None, False, dict(desc), canon='second'))
     return [Case(key, sig, run, impl, spec, moved, dict(desc))] + extra, note
 
 
@@ -476,19 +619,12 @@ def case_from_desc(desc, impl, plain_rand=True):
     raise ValueError('unknown case description %r' % (f,))
 
 
-LOST = {}       # what the run did not look at (made visible in the evidence by `run`)
-
-
-def cases_of(descs, plain_rand=True, skip_hangs=False, timeout=None):
+def cases_of(descs, plain_rand=True, timeout=None):
     impls = run_impls(descs, timeout)
     out = []
     for d, i in zip(descs, impls):
         if i == 'not-run':
             LOST['impl:not-run'] = LOST.get('impl:not-run', 0) + 1
-            continue
-        if skip_hangs and i == 'hang':
-            # zero-tolerance stream on inexact inputs: a fit that does not return says nothing about C06 (C17)
-            LOST['fit:tol0-hang-skipped'] = LOST.get('fit:tol0-hang-skipped', 0) + 1
             continue
         if i == 'hang' or str(i).startswith('crash'):
             LOST['impl:' + str(i).split(' ')[0]] = LOST.get('impl:' + str(i).split(' ')[0], 0) + 1
@@ -519,8 +655,56 @@ def _same(c, model, impl, spec_ok):
     return False
 
 
+def _clause(spec_answer):
+    """which clause of the specification failed: `logged` (the logged increases do not add up to the change of the
+    objective), `notworse`, `components`; `value` for get_modularity"""
+    for t in str(spec_answer).split(' ')[1:]:
+        name, _, val = t.partition('=')
+        if name in ('logged', 'notworse', 'components') and val == '0':
+            return name
+    return 'value'
+
+
 def evaluate(ctx, cases):
-    _evaluate(ctx, cases, same=_same)
+    """vlib.cases.evaluate, with three differences: a second case of the same input (`canon='second'`: the two-way
+    refusal question) is not a further evaluation; the signature of a failed spec line names the clause that failed;
+    the kernel models' `capped` flag is counted."""
+    # the driver is sharded over contiguous blocks of lines: deal the cases out so that the streams (and the few
+    # expensive lines: mid-size graphs, fully tapped fits) are spread over all shards
+    cases = [c for r in range(12) for c in cases[r::12]]
+    lines, idx = [], []
+    for c in cases:
+        idx.append(len(lines))
+        if c.run:
+            lines.append(c.run)
+        if c.spec:
+            lines.append(c.spec)
+    answers = ctx.lean(lines)
+    for c, i in zip(cases, idx):
+        model = answers[i] if c.run else None
+        if c.canon == 'second':
+            ctx.count('fit:accepts-asked-too')
+        else:
+            ctx.case(c.key, c.nontrivial, sample={'request': c.run or c.spec, 'model': model, 'impl': c.impl})
+            ctx.count('entry:' + str(c.sig.get('entry')))
+            ctx.count('answer:' + ('error' if str(c.impl).startswith('err') else 'ok'))
+        spec_ok = True
+        if c.spec:
+            sp = answers[i + (1 if c.run else 0)]
+            if sp in ('bad-args', 'bad-certificate') or sp.startswith('unknown-cmd'):
+                raise ToolFailure('driver rejected request %r -> %r' % (c.spec[:200], sp))
+            if sp != 'holds':
+                spec_ok = False
+                ctx.spec_fail(dict(c.sig, clause=_clause(sp)), c.desc,
+                              {'spec_line': c.spec, 'spec_answer': sp, 'impl': c.impl, 'model': model})
+        if not c.run:
+            continue
+        if model.startswith('unknown-cmd') or model == 'bad-args':
+            raise ToolFailure('driver rejected request %r -> %r' % (c.run[:200], model))
+        if c.canon in ('kernel', 'refine') and model.startswith('ok ') and model.split(' ')[-1] in ('1', 'true'):
+            ctx.count('%s:capped' % c.sig.get('entry'))
+        if model != c.impl and not _same(c, model, c.impl, spec_ok) and spec_ok:
+            ctx.disagree(c.sig, c.desc, model, c.impl, c.run)
 
 
 # ------------------------------------------------------------------------------------------------
@@ -766,16 +950,22 @@ def exact_domain(a, kind, res, fb):
 
 
 def _fit_desc(algo, a, kind, res, tol_o, tol_a, n_agg, fb, exact, seed, dtype='float64', shuffle=False, sort=False,
-              refit=None):
+              refit=None, **more):
     d = _csr_desc(a, dtype)
     d.update(f=algo, kind=kind, resolution=res, tol_optimization=tol_o, tol_aggregation=tol_a, n_aggregations=n_agg,
              force_bipartite=fb, exact=bool(exact), seed=seed, shuffle_nodes=bool(shuffle), sort_clusters=bool(sort),
              refit=refit)
+    d.update({k: v for k, v in more.items() if v})
     return d
 
 
 def _other_graph(rng):
     """a small graph an estimator was fitted on before (refit stream)"""
+    if rng.random() < 0.3:
+        # a biadjacency matrix: the first fit leaves labels_row_ / labels_col_ / bipartite=True behind
+        nr, nc = rng.randint(2, 4), rng.randint(5, 7)
+        es = graphs.random_edges(rng, nr, 0.6, m=nc) or [(0, 0)]
+        return _csr_desc(_csr_from(nr, es, [rng.choice([1, 2]) for _ in es], m=nc))
     n = rng.randint(3, 7)
     es = graphs.structured(rng, rng.choice(['cycle', 'clique', 'star', 'path']), n)
     return _csr_desc(_csr_from(n, es, graphs.sym_weights(rng, es, [1, 2, 0.5])))
@@ -783,10 +973,12 @@ def _other_graph(rng):
 
 FIT_RES = [1, 0.5, 2, 1.5, 0.25, 3]
 TOLS = [1e-3, 0, 1e-2, 0.05, 1e-7]      # where float32 arithmetic is exact
-# elsewhere no zero / tiny tolerance in the main streams: float32 rounding turns exact ties into gains of ~4e-8, and
-# with tol_aggregation = 0 `Leiden.fit` then repeats the same aggregation for ever (observed; termination is C17's
-# subject, not C06's).  Zero tolerances on inexact inputs have their own stream, judged when the fit returns.
-TOLS_INEXACT = [1e-3, 1e-2, 0.05, 1e-4]
+# elsewhere float32 rounding turns exact ties into gains of ~4e-8: with a zero tolerance the kernels then run to their
+# bound on the passes (/repo 68bb875c, 5e6d9e2b) and Leiden.fit to its `n == n_previous` stop (/repo b2c73765); every
+# fit returns, so zero and tiny tolerances are drawn everywhere (less often: such fits are the slow ones)
+TOLS_INEXACT = [1e-3, 1e-2, 0.05, 1e-4, 1e-3, 1e-2, 0, 1e-7]
+CONTAINERS = ['csc', 'coo', 'lil', 'dense']      # the containers check_format's signature names (dok is refused)
+TAP_MAX_NODES = 40
 
 
 def gen_fits(ctx):
@@ -794,15 +986,34 @@ def gen_fits(ctx):
     quick = ctx.quick
     descs = []
 
-    tol0 = []   # zero / tiny tolerance on inexact inputs: run apart, a fit that does not return is skipped
+    def pow2(n, es, undirected, **kw):
+        w = _force_pow2(rng, n, es, undirected, **kw)
+        if w is None:
+            ctx.count('fit:dropped:no-power-of-two-total')
+        return w
 
     def both(a, kind, res, fb=False, exact=None, tol_o=None, tol_a=None, n_agg=None, dtype=None, refit=None,
-             plain=False, into=None):
-        ex = exact_domain(a, kind, res, fb) if exact is None else exact
+             plain=False, tap=None):
+        ex = exact_domain(a, kind.lower(), res, fb) if exact is None else exact
         dt = _pick_dtype(rng, sparse.csr_matrix(a).data) if dtype is None else dtype
         tol_o = rng.choice(TOLS if ex else TOLS_INEXACT) if tol_o is None else tol_o
         tol_a = rng.choice(TOLS if ex else TOLS_INEXACT) if tol_a is None else tol_a
-        n_agg = rng.choice([-1, -1, -1, 1, 2]) if n_agg is None else n_agg
+        n_agg = rng.choice([-1, -1, -1, 1, 2, 0]) if n_agg is None else n_agg    # 0 is never reached: as -1
+        shape = sparse.csr_matrix(a).shape
+        n_nodes = shape[0] + shape[1] if (fb or shape[0] != shape[1]) else shape[0]
+        more = {}
+        if not plain:
+            if rng.random() < 0.25:
+                kind = rng.choice([kind.capitalize(), kind.upper()])     # the documented spelling is capitalised
+                ctx.count('fit:kind-capitalised')
+            more['return_probs'] = rng.random() < 0.2
+            more['return_aggregate'] = rng.random() < 0.2
+            if rng.random() < 0.2:
+                more['container'] = rng.choice(CONTAINERS)
+                ctx.count('fit:container:' + more['container'])
+            more['tap'] = tap if tap is not None else (MAX_TAPS if n_nodes <= TAP_MAX_NODES and rng.random() < 0.4 else 0)
+            if more['tap']:
+                ctx.count('fit:tapped')
         if rng.random() < 0.2 and sparse.csr_matrix(a).nnz:
             a = graphs.unsorted_copy(sparse.csr_matrix(a), rng)      # CSR rows in any order
         if refit is None and not plain and rng.random() < 0.12:
@@ -816,9 +1027,9 @@ def gen_fits(ctx):
                 shuffle, sort = (algo == 'Louvain' and rng.random() < 0.35), False
             else:
                 shuffle, sort = rng.random() < 0.5, rng.random() < 0.5
-            (descs if into is None else into).append(
+            descs.append(
                 _fit_desc(algo, a, kind, res, tol_o, tol_a, n_agg, fb, ex, rng.randrange(1, 10 ** 6), dt,
-                          shuffle=shuffle, sort=sort, refit=refit))
+                          shuffle=shuffle, sort=sort, refit=refit, **more))
             ctx.count('fit:shuffle_nodes=%s' % shuffle)
             ctx.count('fit:sort_clusters=%s' % sort)
         ctx.count('fit:' + ('exact' if ex else 'spec-only'))
@@ -831,7 +1042,7 @@ def gen_fits(ctx):
     if quick:
         g4 = rng.sample(g4, 120)
     for es in g4:
-        w = _force_pow2(rng, 4, es, True)
+        w = pow2(4, es, True)
         if w is None:
             continue
         a = _csr_from(4, es, w)
@@ -839,7 +1050,7 @@ def gen_fits(ctx):
     # digraphs on 3 nodes
     g3 = list(graphs.all_digraphs(3, loops=True))
     for es in rng.sample(g3, 100 if quick else 500):
-        w = _force_pow2(rng, 3, es, False)
+        w = pow2(3, es, False)
         if w is None:
             continue
         both(_csr_from(3, es, w), rng.choice(KINDS), rng.choice(FIT_RES))
@@ -852,7 +1063,7 @@ def gen_fits(ctx):
             n2 = 8 if n < 12 else 16
             es = [e for e in es if e[0] < n2 and e[1] < n2]
             n = n2
-        w = _force_pow2(rng, n, es, undirected)
+        w = pow2(n, es, undirected)
         if w is None:
             continue
         a = _csr_from(n, es, w)
@@ -869,7 +1080,7 @@ def gen_fits(ctx):
             nr, nc = rng.choice([(2, 2), (3, 5), (4, 4), (2, 6), (1, 3), (5, 3)])
             fb = fb or nr == nc
         es = graphs.random_edges(rng, nr, rng.choice([0.3, 0.5, 0.8]), m=nc)
-        w = _force_pow2(rng, nr, es, False, m=nc, maxw=128)
+        w = pow2(nr, es, False, m=nc, maxw=128)
         if w is None:
             continue
         both(_csr_from(nr, es, w, m=nc), kind, rng.choice(FIT_RES), fb=fb)
@@ -938,20 +1149,31 @@ def gen_fits(ctx):
             continue
         a = _mixed_sign(rng, n, es)
         if a is None:
+            ctx.count('fit:dropped:no-mixed-sign-draw')
             continue
         both(a, rng.choice(['potts', 'potts', 'newman', 'dugue']), rng.choice([1, 0.5, 2]), dtype='float64')
         ctx.count('fit:mixed-sign')
-    # zero / tiny tolerances on inexact inputs (the quantifier says "tolerances"): judged when the fit returns
+    # zero / tiny tolerances on inexact inputs (the quantifier says "tolerances")
     for name, n, es, w in graphs.suite(rng, 16 if quick else 150, 3, 14, kinds=kinds_g,
                                        weights=[1, 2, 3, 5, 0.5, 0.3, 1.7]):
         a = _csr_from(n, es, w)
         if a.nnz == 0:
             continue
         both(a, rng.choice(KINDS), rng.choice(FIT_RES), exact=False, tol_o=rng.choice([0, 0, 1e-7, 1e-3]),
-             tol_a=rng.choice([0, 0, 1e-7]), into=tol0)
+             tol_a=rng.choice([0, 0, 1e-7]))
         ctx.count('fit:tol0-inexact')
+    # zero tolerances on weighted paths and rings, every kernel call recorded: on the aggregated levels float32 noise
+    # moves nodes back and forth until optimize_core's bound of n + 1 passes ends the loop (about one call in 40);
+    # the Float32 model must end the same way, bit for bit (its `capped` flag is counted: `optimize_core:capped`)
+    for _ in range(50 if quick else 400):
+        n = rng.randint(9, 40)
+        es = [(i, i + 1) for i in range(n - 1)] + ([(n - 1, 0)] if rng.random() < 0.5 else [])
+        es = sorted(es + [(j, i) for i, j in es])
+        a = _csr_from(n, es, graphs.sym_weights(rng, es, [1, 2, 3]))
+        both(a, rng.choice(KINDS), rng.choice([1, 1, 0, 0.5]), exact=False, tol_o=0, tol_a=0, n_agg=-1, tap=40)
+        ctx.count('fit:tol0-paths-rings')
     # mid-size graphs (hundreds of nodes): the float32 drift of the logged increases grows with the number of moves
-    for _ in range(2 if quick else 12):
+    for _ in range(3 if quick else 12):
         n = rng.randint(250, 400 if quick else 700)
         es = set()
         for i in range(n):
@@ -961,9 +1183,14 @@ def gen_fits(ctx):
                     es.add((i, j))
                     if rng.random() < 0.8:
                         es.add((j, i))
+        if rng.random() < 0.5:
+            # two or three components: no edge between the thirds of the node range
+            parts = rng.choice([2, 3])
+            es = {(i, j) for i, j in es if i * parts // n == j * parts // n}
+            ctx.count('fit:mid-size:components=%d' % parts)
         es = sorted(es)
         a = _csr_from(n, es, [rng.choice([1, 2, 3, 0.5, 0.3]) for _ in es])
-        both(a, rng.choice(KINDS), rng.choice([1, 0.5, 2]), exact=False, tol_o=1e-3, tol_a=1e-3, n_agg=-1,
+        both(a, rng.choice(KINDS), rng.choice([1, 0.5, 2, 0.25]), exact=False, tol_o=1e-3, tol_a=1e-3, n_agg=-1,
              dtype='float64')
         ctx.count('fit:mid-size')
     # degenerate stream
@@ -982,7 +1209,7 @@ def gen_fits(ctx):
                           shape=(4, 4))
     both(z, 'newman', 3, exact=False)
     both(z, 'potts', 3, exact=False)
-    return descs, tol0
+    return descs
 
 
 def _mixed_sign(rng, n, es):
@@ -1088,6 +1315,23 @@ def gen_kernels(ctx):
             d2['f'] = 'optimize_refine_core'
             refine.append(d2)
             ctx.count('kernel:refine')
+    # zero tolerance on first-level arrays (weighted paths and rings, random graphs); the calls that run into the
+    # kernel's bound on the passes come from the aggregated levels: see the zero-tolerance stream of gen_fits
+    for t in range(40 if quick else 300):
+        n = rng.randint(6, 24 if quick else 40)
+        shape = rng.choice(['path', 'ring', 'random'])
+        wts = rng.choice([[1, 2, 3, 5, 0.3, 0.7, 1.7], [0.1, 0.7, 1.3], [1, 3]])
+        if shape == 'random':
+            a = _normalised(rng, n, rng.random() < 0.4, False, rng.choice([0.15, 0.3]), wts)
+        else:
+            es = [(i, i + 1) for i in range(n - 1)] + ([(n - 1, 0)] if shape == 'ring' else [])
+            es = sorted(es + [(j, i) for i, j in es])
+            a = _csr_from(n, es, graphs.sym_weights(rng, es, wts))
+        d = _kernel_desc(rng, a, rng.choice(KINDS), rng.choice([1, 0.5, 2, 0, 1.5]), 0.0,
+                         'singletons' if rng.random() < 0.8 else 'random', rng.choice(['int64', 'int32']), False)
+        d['f'] = 'optimize_core'
+        core.append(d)
+        ctx.count('kernel:core:tol0:' + shape)
     return core, refine
 
 
@@ -1110,18 +1354,15 @@ def build_descs(ctx):
     descs += core
     if plain:
         descs += refine
-    fits, tol0 = gen_fits(ctx)
-    descs += fits
+    descs += gen_fits(ctx)
     ctx.exhaustive = False
-    return descs, tol0, plain
+    return descs, plain
 
 
 def run(ctx):
     LOST.clear()
-    descs, tol0, plain = build_descs(ctx)
+    descs, plain = build_descs(ctx)
     cases = cases_of(descs, plain)
-    # zero-tolerance fits on inexact inputs: their own workers and a short alarm; hangs are skipped, not compared
-    cases += cases_of(tol0, plain, skip_hangs=True, timeout=5)
     for k, v in sorted(LOST.items()):
         ctx.count(k, v)
     if LOST.get('impl:not-run'):
@@ -1132,6 +1373,14 @@ def run(ctx):
                  % LOST['leiden:no-seed-observed'])
         if LOST['leiden:no-seed-observed'] > 20:
             raise ToolFailure('the wrapper around optimize_refine_core observes no call: the tie of Leiden.fit is lost')
+    if LOST.get('shuffle:index-not-observed'):
+        ctx.note('%d shuffled fits whose permutation was not observed in `_pre_processing`: spec lines only'
+                 % LOST['shuffle:index-not-observed'])
+        if LOST['shuffle:index-not-observed'] > 5:
+            raise ToolFailure('the wrapper around _pre_processing observes no permutation: the tie of the shuffled '
+                              'fits is lost')
+    if LOST.get('impl:slow'):
+        ctx.note('%d calls outlived their alarm and returned when run again alone' % LOST['impl:slow'])
     evaluate(ctx, cases)
 
 
